@@ -192,7 +192,7 @@ class FactoredInference:
             u = (1-c)*w + c*v
             _, g = self._marginal_loss(u) # not interested in loss of this query point
             gbar = (1-c)*gbar + c*g
-            theta = -t*(t+1)/(4*L+beta)/self.model.total * gbar 
+            theta = model.potentials + (-t*(t+1)/(4*L+beta)/self.model.total) * gbar 
             v = model.belief_propagation(theta)
             w = (1-c)*w + c*v
            
